@@ -164,4 +164,18 @@ PROPS['C17'] = {
     'level_note': 'A-STR/A-LIB partial parsers; FCSFile summarised; value of parsed times: bounded only.',
 }
 
+PROPS['C18'] = {
+    'contracts': ['contracts.logicle:LogicleInit', 'contracts.logicle:LogicleTransformFn'],
+    'bounded': True,
+    'level': 'other',
+    'timeout_ms': 15000,
+    'explanation': 'Proved over the reals: transform_non_affine is the published biexponential T*10^-(M-W)*(10^(s-W) - p^2*10^(-(s-W)/p) + '
+                   'p^2 - 1), maps display W to data 0 and is strictly increasing in s for T>0, p>=1 (exp10 axioms); __init__ derives T (largest '
+                   'range limit or largest value), M = max(4.5, 4.5*log10(T)/log10(262144)), W = max(0, (M-log10(T/|r|))/2 over samples with '
+                   'negative events), honours explicit T/M/W, refuses T<=0, M<=0, W<0 and multidimensional data without channel; arrays, '
+                   'samples and lists of samples with symbolic lengths. ASSUMED (bounded only): scipy.optimize.root returns p>=1 solving '
+                   'W = 2p*log10(p)/(p+1); accuracy and monotonicity of the interpolated inverse; _LogicleScale glue.',
+    'level_note': 'Root finder convergence and inverse accuracy (1e-4*M) are numerical facts outside contract reach: bounded lattice only.',
+}
+
 NOT_APPLICABLE = {}
